@@ -2229,6 +2229,8 @@ class PdiffIndex(_multivalued):
         # type: () -> Dict[str, Dict[str, int]]
         fixed_field_lengths = {}   # type: Dict[str, Dict[str, int]]
         for key in self._multivalued_fields:
+            if key not in self:
+                continue
             if hasattr(self[key], 'keys'):
                 # Not multi-line -- don't need to compute the field length for
                 # this one
@@ -2280,6 +2282,8 @@ class Release(_multivalued):
         # type: () -> Dict[str, Dict[str, int]]
         fixed_field_lengths = {}  # type: Dict[str, Dict[str, int]]
         for key in self._multivalued_fields:
+            if key not in self:
+                continue
             length = self._get_size_field_length(key)
             fixed_field_lengths[key] = {"size": length}
         return fixed_field_lengths
